@@ -4,6 +4,7 @@
 package core
 
 import (
+	"context"
 	"bytes"
 	"crypto/sha1"
 	"encoding/hex"
@@ -345,11 +346,13 @@ func (r *Run) Finish() int {
 				break
 			}
 			ntries++
-			cmd := exec.Command(self, r.ID, "--replay", path)
+			ctx, cancel := context.WithTimeout(context.Background(), 10*time.Minute)
+			cmd := exec.CommandContext(ctx, self, r.ID, "--replay", path)
 			cmd.Env = append(os.Environ(), "VERIF_REPLAY_CHILD=1")
 			var out bytes.Buffer
 			cmd.Stdout, cmd.Stderr = &out, &out
 			err := cmd.Run()
+			cancel()
 			if ee, ok := err.(*exec.ExitError); ok && ee.ExitCode() == 1 {
 				repro++
 			}
